@@ -295,7 +295,7 @@ fn var_case(which: u8) {
     core::mem::forget((env, p, g, inner_x, outer_x, outer_y, dummy_env));
 }
 
-// @harness id=c02_expr_var_lookup props=C02:thorough,C09,C04:thorough tier=quick cap=1500
+// @harness id=c02_expr_var_lookup props=C02,C09,C04 tier=thorough cap=1500
 // @desc one real call of Evaluator::do_expr on a variable reference per case, in a chain of three environments: a name bound in the innermost environment and in the outermost one resolves to the INNERMOST binding and, being evaluated already, yields its value without re-evaluation; a name bound only in the outermost environment is found there and its pending thunk is forced inside a counted Variable frame
 // @bound environment chains of depth 3; values = arbitrary finite numbers
 // @funcs Evaluator::do_expr (arm ir::Expr::Var), ThunkEnv::get_var, Evaluator::want_thunk_direct
@@ -310,7 +310,7 @@ fn c02_expr_var_lookup() {
 }
 }
 
-// @harness id=c02_expr_closure_and_call props=C02,C09,C04 tier=thorough cap=2700 mem=40
+// @harness id=c02_expr_closure_and_call props=C02,C09,C04 tier=attempt cap=2700 mem=40
 // @desc Evaluator::do_expr on `function(a, b) body` yields a function value that captures the environment of its DEFINITION; Evaluator::execute_normal_call on it with two argument thunks schedules the body in a new environment whose parent is the captured one (not the caller's), in which a and b are exactly the argument thunks, unevaluated: static scoping and call-by-need
 // @bound a two-parameter function, two pending argument thunks
 // @funcs Evaluator::do_expr (arm ir::Expr::Func), Evaluator::execute_normal_call, FuncData::new, ThunkEnv::get_var
